@@ -921,6 +921,17 @@ func (fr *Frame) callWritesOnlyRowsOrFresh(li *loopInfo, ci ssa.CallInstruction,
 		c := ci.Common()
 		if b, ok := c.Value.(*ssa.Builtin); ok && (b.Name() == "append" || b.Name() == "copy") {
 			root := fr.rootOf(c.Args[0])
+			// appending to the result of an append: the array written is the one the inner append wrote or returned
+			for depth := 0; depth < 8; depth++ {
+				ac, ok := root.(*ssa.Call)
+				if !ok {
+					break
+				}
+				if ab, ok := ac.Call.Value.(*ssa.Builtin); !ok || ab.Name() != "append" {
+					break
+				}
+				root = fr.rootOf(ac.Call.Args[0])
+			}
 			switch root.(type) {
 			case *ssa.Alloc, *ssa.MakeSlice:
 				return true
